@@ -214,5 +214,16 @@ def run(ctx):
                   'an object that may be ACTIVE (or was not loaded under Operation.DESTROY) can be deleted; states %s, ops %s' % (sorted(a['states']), sorted(map(str, a['ops']))))
     if ai.bounds_hit:
         raise AnalysisError('analysis bound hit: %s' % ai.bounds_hit[:3])
+    # ---------------- C04.R5 (lifted from C09)
+    ctx.rule('C04.R5', 'a lifecycle change is durable: every normal return of Activate, Revoke and Destroy that stored a state (or deleted the row) is reached after the commit, on every path (lifted from C09.R2): a state that is only set in memory is gone with the request, so a revoked or compromised key would be usable again')
+    from ..report import Ctx as _LCtx
+    from . import c09 as _lsrc
+    _sub = _LCtx('C09', 'quick', ctx.src, 0)
+    _lsrc.run(_sub)
+    _lifted = [f for f in _sub.findings if f.rule == 'C09.R2' and any(h in f.key for h in ('_process_activate', '_process_revoke', '_process_destroy'))]
+    for f in _lifted:
+        ctx.fail('C04.R5', f.key, f.site, f.message)
+    if not _lifted:
+        ctx.ok('C04.R5', 'kmip/services/server/engine.py', 'every state store / delete of the three lifecycle handlers is committed before the handler returns')
     ctx.not_decided += ['that the crypto engine uses no key other than those passed (C06 provenance)', 'state of objects after a server restart (stored column value, C05/C09)']
     ctx.assumptions += ['destroyed rows are deleted, so DESTROYED* are not live source states (C07.R3)', 'State and CryptographicUsageMask constants are compared by identity/equality as enum members']
